@@ -36,6 +36,11 @@ pub struct Op {
 }
 
 impl Op {
+    pub fn from_poller(poller: Box<dyn FnMut(&mut Context<'_>) -> Poll<Option<String>>>) -> Op {
+        let held = talloc::untracked(Held::new_untracked);
+        Op { poller, stream: false, held: held.fds, bufs: held.bufs }
+    }
+
     pub fn poll(&mut self, cx: &mut Context<'_>) -> Seen {
         match talloc::track(|| (self.poller)(cx)) {
             Poll::Pending => Seen::Pending,
